@@ -154,31 +154,7 @@ static void op_bkgen(const V &a, V &r) {
     delete_TGswSample(g); delete_TGswKey(gk); delete_LweKey(lk); delete_LweParams(lp);
 }
 
-// ---- full key sets: spec = lambda n k l B t bb abk aks seed  (lambda > 0: default set; else custom, N = 1024,
-//      noise levels in units of 2^-40) ----
-struct KS {
-    std::string spec; TFheGateBootstrappingParameterSet *params; TFheGateBootstrappingSecretKeySet *sk; LweKey *xkey;
-    KS() : params(0), sk(0), xkey(0) {}
-};
-static KS cur;
-static const int SPECN = 10;
-static void need_keys(const V &a) {
-    std::ostringstream os; for (int i = 0; i < SPECN; i++) os << a[i] << ' ';
-    if (cur.sk && cur.spec == os.str()) return;
-    if (cur.sk) { delete_LweKey(cur.xkey); delete_gate_bootstrapping_secret_keyset(cur.sk); cur.sk = 0; }
-    uint32_t seed = (uint32_t) a[9]; tfhe_random_generator_setSeed(&seed, 1);
-    if (a[0] > 0) cur.params = new_default_gate_bootstrapping_parameters((int) a[0]);
-    else {
-        LweParams *lp = new_LweParams((int) a[1], ldexp((double) a[8], -40), 0.012467);
-        TLweParams *tp = new_TLweParams(1024, (int) a[2], ldexp((double) a[7], -40), 0.012467);
-        TGswParams *gp = new_TGswParams((int) a[3], (int) a[4], tp);
-        cur.params = new TFheGateBootstrappingParameterSet((int) a[5], (int) a[6], lp, gp);
-    }
-    cur.sk = new_random_gate_bootstrapping_secret_keyset(cur.params);
-    cur.xkey = new_LweKey(&cur.params->tgsw_params->tlwe_params->extracted_lweparams);
-    tLweExtractKey(cur.xkey, &cur.sk->tgsw_key->tlwe_key);
-    cur.spec = os.str();
-}
+#include "keys_common.h"
 // fullkey spec -> n N k l B t bb, then s(n)
 static void op_fullkey(const V &a, V &r) {
     need_keys(a);
@@ -206,17 +182,6 @@ static void op_fullcase(const V &a, V &r) {
     delete_LweSample(res); delete_LweSample(u); delete_LweSample(x);
 }
 
-// ---- gates through the public API ----
-typedef void (*G2)(LweSample *, const LweSample *, const LweSample *, const TFheGateBootstrappingCloudKeySet *);
-static G2 gate2[10] = { bootsNAND, bootsOR, bootsAND, bootsXOR, bootsXNOR, bootsNOR, bootsANDNY, bootsANDYN, bootsORNY, bootsORYN };
-static void apply_gate(int g, LweSample *res, const LweSample *a, const LweSample *b, const LweSample *c, int cval,
-                       const TFheGateBootstrappingCloudKeySet *ck) {
-    if (g < 10) gate2[g](res, a, b, ck);
-    else if (g == 10) bootsNOT(res, a, ck);
-    else if (g == 11) bootsCOPY(res, a, ck);
-    else if (g == 12) bootsCONSTANT(res, cval, ck);
-    else bootsMUX(res, a, b, c, ck);
-}
 // gatecase spec g a1(n) b1 a2(n) b2 a3(n) b3 -> phase(result) decrypted-bit result(a.., b)
 static void op_gatecase(const V &a, V &r) {
     need_keys(a);
